@@ -6,6 +6,7 @@
 #include "common/ledger.h"
 
 #include <cstring>
+#include <initializer_list>
 #include <memory>
 #include <string>
 
@@ -80,6 +81,17 @@ template <int N> struct P<N, 4>
 	static const bool copyable = true;
 };
 
+// kind 5: a type with an initializer_list constructor over itself (a tree / variant-like value): building the held object
+// from a value of the same type must copy or move it, not wrap it in a one-element list
+template <int N> struct P<N, 5>
+{
+	unsigned char b[N];
+	explicit P(int seed) { for(int i = 0; i < N; ++i) b[i] = patt(seed, i); }
+	P(std::initializer_list<P> children) { (void)children; memset(b, 0xee, N); b[0] = 0x11; }
+	bool equals(int seed) const { for(int i = 0; i < N; ++i) if(b[i] != patt(seed, i)) return false; return true; }
+	static const bool copyable = true;
+};
+
 template <typename T, bool Copyable> struct Make;
 template <typename T> struct Make<T, true>
 {
@@ -109,7 +121,7 @@ CaseResult runCase(const Program & prog)
 	using AD = eventpp::AnyData<M>;
 	using Other1 = P<N, (K == 0 ? 1 : 0)>;            // same size, different kind
 	using Other2 = P<(N == 256 ? 255 : N + 1), K>;     // different size, same kind
-	using Partner = P<(N <= 32 ? 100 : 4), (K == 3 || K == 4 ? 1 : K)>; // a payload of very different size in the same queue
+	using Partner = P<(N <= 32 ? 100 : 4), (K >= 3 ? 1 : K)>; // a payload of very different size in the same queue
 	CaseResult r;
 	const int seed = prog.params.size() > 3 ? prog.params[3] : 1;
 	const size_t cap = sizeof(AD) - sizeof(void *);
